@@ -18,15 +18,17 @@ import (
 func newBig(i int64) *big.Int { return big.NewInt(i) }
 
 type Program struct {
-	Repo       string
-	Prog       *ssa.Program
-	Pkgs       map[string]*ssa.Package // by path
-	Contracts  map[string]*Contract    // key: pkgPath + "::" + name ; externals: "ext::" + name
-	ConFiles   []string
-	Findings   map[string]*Finding
-	Orphans    []*Contract // contracts whose function does not exist in the current tree
-	Invariants []*Clause
-	NonNilDyn  map[string]bool
+	Repo            string
+	Prog            *ssa.Program
+	Pkgs            map[string]*ssa.Package // by path
+	Contracts       map[string]*Contract    // key: pkgPath + "::" + name ; externals: "ext::" + name
+	ConFiles        []string
+	Findings        map[string]*Finding
+	Orphans         []*Contract       // contracts whose function does not exist in the current tree
+	ProductProblems []ProductProblem  // lockstep products that could not be built
+	Overlay         map[string][]byte // generated files (path inside the repository -> content)
+	Invariants      []*Clause
+	NonNilDyn       map[string]bool
 
 	mu        sync.Mutex
 	strIDs    map[string]int
@@ -47,6 +49,9 @@ func Load(repo string, extDir string) (*Program, error) {
 		Env: append(os.Environ(), "GOFLAGS=", "GOPROXY=off", "GOSUMDB=off", "GOTOOLCHAIN=local",
 			"GOWORK="+filepath.Join(repo, "go.work")),
 	}
+	// relational obligations: lockstep products generated from the current sources, overlaid on the package
+	overlay, probs := GenProducts(repo)
+	cfg.Overlay = overlay
 	pkgs, err := packages.Load(cfg, "./slog/...")
 	if err != nil {
 		return nil, err
@@ -65,6 +70,8 @@ func Load(repo string, extDir string) (*Program, error) {
 	prog.Build()
 	P := &Program{Repo: repo, Prog: prog, Pkgs: map[string]*ssa.Package{}, Contracts: map[string]*Contract{},
 		strIDs: map[string]int{}, typeTags: map[string]int{}, funcs: map[string]*ssa.Function{}, Findings: map[string]*Finding{}}
+	P.ProductProblems = probs
+	P.Overlay = overlay
 	for _, sp := range prog.AllPackages() {
 		P.Pkgs[sp.Pkg.Path()] = sp
 	}
@@ -128,7 +135,7 @@ func Load(repo string, extDir string) (*Program, error) {
 	sort.Strings(files)
 	for _, pf := range files {
 		parts := strings.SplitN(pf, "\x00", 2)
-		cs, err := ParseContractFile(parts[1], parts[0])
+		cs, err := ParseContractFileOverlay(parts[1], parts[0], overlay)
 		if err != nil {
 			return nil, err
 		}
